@@ -191,6 +191,16 @@ CHECKS = {
        "known finding KF-C17-1 (annotate on: own class in a method signature).",
   tech="TLA+ API function over abstract syntax as oracle; TLC-enumerated class shapes; API read off emitted AST + signature-binding probes, judged by TLC",
   ref="DESIGN.md 9/C17"),
+ "C15": dict(
+  text="spec/Rename.tla enumerates renamings (kind of name x index x target over a pool of ordinary names and names that collide with "
+       "identifiers the generator emits or special-cases, plus the total fresh renaming); lib/rename.py applies each to the abstract "
+       "syntax of the programs of the C01 family and a slice of the verdict probes; p and pi(p) are rendered and transpiled in both "
+       "annotate modes; py/pyapi.py applies pi to the Python AST of out(p); TLC (spec/EqualJudge.tla) requires the same verdict and "
+       "pi(ast(out(p))) = ast(out(pi p)).",
+  note="Names of the language's own vocabulary (keywords, built-in types and functions) and the documented specials (self, init as "
+       "constructor, operator names) are not targets. Open known finding KF-C15-1 (classes named Union / Generic).",
+  tech="TLC-enumerated renamings applied to TLC-enumerated programs; commutation check on Python ASTs judged by TLC",
+  ref="DESIGN.md 9/C15"),
 }
 
 PENDING_REASON = "check not built yet in this snapshot (work in progress; see DESIGN.md section 13)"
